@@ -18,6 +18,7 @@ import filelock
 from . import sched
 
 WATCHDOG = 20.0
+SPAWN_WATCHDOG = 90.0      # an interpreter that starts from scratch imports numpy/pandas first
 
 
 class ChildCtl:
@@ -100,6 +101,20 @@ def run_schedule_processes(cfg, chooser, directory, key, gate_all=False):
         pid = os.fork()
         if pid == 0:
             parent.close()
+            for c_ in conns:
+                c_.close()
+            if cfg.get('spawned'):
+                # an independently started interpreter (its own string-hash seed, nothing inherited but the pipe to the controller)
+                import json
+                try:
+                    fd = child.fileno()
+                    os.set_inheritable(fd, True)
+                    env = dict(os.environ, PYTHONHASHSEED=str(1000 + 17 * i + cfg.get('hashseed_base', 0)))
+                    env['PYTHONPATH'] = os.path.dirname(os.path.dirname(os.path.abspath(__file__))) + (os.pathsep + env['PYTHONPATH'] if env.get('PYTHONPATH') else '')
+                    os.execve(sys.executable, [sys.executable, '-m', 'tc_verif.sched_proc', str(fd), str(i), op, json.dumps(cfg), str(directory), key,
+                                               '1' if gate_all else '0'], env)
+                finally:
+                    os._exit(4)
             child_main(child, i, op, cfg, directory, key, gate_all)
             os._exit(0)
         child.close()
@@ -152,7 +167,7 @@ def run_schedule_processes(cfg, chooser, directory, key, gate_all=False):
                 state[i]['done'] = True
     try:
         for i in range(n):
-            pump(i, WATCHDOG)
+            pump(i, SPAWN_WATCHDOG if cfg.get('spawned') else WATCHDOG)
         while inconclusive is None:
             live = [i for i in range(n) if not state[i]['done']]
             if not live:
@@ -187,3 +202,13 @@ def run_schedule_processes(cfg, chooser, directory, key, gate_all=False):
         r = state[i]['res'] or {'result': None, 'exc': None, 'computed': 0}
         calls.append({'caller': i, 'op': op, 'computed': r['computed'], 'result': r['result'], 'exc': r['exc']})
     return {'cfg': cfg, 'calls': calls, 'trace': trace, 'choices': choices, 'branching': branching, 'events': events, 'produced': produced, 'inconclusive': inconclusive}
+
+
+if __name__ == '__main__':
+    # caller process started by exec (cfg['spawned']): argv = fd idx op cfg-json directory key gate_all
+    import json as _json
+    from multiprocessing.connection import Connection
+    from .core import setup_worker_process
+    setup_worker_process()
+    _conn = Connection(int(sys.argv[1]))
+    child_main(_conn, int(sys.argv[2]), sys.argv[3], _json.loads(sys.argv[4]), sys.argv[5], sys.argv[6], sys.argv[7] == '1')
